@@ -75,6 +75,29 @@ def order_sensitive(error_id: str, registry: dict) -> bool:
     return len(vals) >= 2
 
 
+# --- node errors delivered inside an operation group (receipt) -------------------------------------------------------
+# A rejected group carries its node errors on the results of its operations: the result of every content followed by
+# the results of that content's internal operations, in the order of the receipt.  `slots` is that flattened sequence of
+# (status, error identifiers | None).  What the statement does not pin down is whether errors attached to a result
+# whose encoding has no error field ("skipped") belong to the list, hence two readings; "applied" results carry none.
+ERROR_STATUSES_STRICT = ('failed', 'backtracked')
+
+
+def group_error_lists(slots):
+    """-> admissible readings (deduplicated) of the list of node errors of a group, outermost first."""
+    every = [i for status, ids in slots if status != 'applied' for i in (ids or [])]
+    strict = [i for status, ids in slots if status in ERROR_STATUSES_STRICT for i in (ids or [])]
+    return [every] if every == strict else [every, strict]
+
+
+def expected_group(slots, registry: dict):
+    """-> set of admissible (kind, value) answers for the exception raised for a rejected group."""
+    out = set()
+    for ids in group_error_lists(slots):
+        out |= expected(ids, registry)
+    return out
+
+
 def shipped_registry(repo: str | None = None) -> dict:
     """error_id -> class name, read from rpc/errors.py with ast (not imported)."""
     repo = repo or os.environ.get('VERIF_REPO', '/repo')
@@ -116,6 +139,24 @@ def selftest() -> int:
         assert expected([f'proto.{p}.tez.subtraction_underflow'], reg) == {('category', 'TezArithmeticError')}; n += 1
         assert expected([f'proto.{p}.contract.balance_too_low'], reg) == {(GENERIC, None)}; n += 1
         assert expected(['x.y', f'proto.{p}.michelson_v1.bad_return'], reg) == {('deprefixed', 'MichelsonBadReturn')}; n += 1
+    # depth: the final component is the last one and the category never lies left of the de-prefixed identifier
+    for eid in ('a.b.c.d.michelson_v1.script_rejected', 'proto.alpha.a.b.c.michelson_v1.script_rejected'):
+        assert expected([eid], reg) == {('final', 'MichelsonScriptRejected')}, eid; n += 1
+    assert expected(['proto.alpha.a.b.c.tez.subtraction_underflow'], reg) == \
+        {('category', 'TezArithmeticError'), (GENERIC, None)}; n += 1   # "tez" is the category in one reading only
+    assert expected(['tez.a.b.c.ua.ub'], reg) == {('category', 'TezArithmeticError'), (GENERIC, None)}; n += 1
+    assert expected(['a.tez.b.c.ua.ub'], reg) == {(GENERIC, None)}; n += 1
+    # operation groups: errors of every non-applied result, in receipt order; the last one decides
+    sr, su = 'proto.alpha.michelson_v1.script_rejected', 'proto.alpha.tez.subtraction_underflow'
+    assert group_error_lists([('applied', None), ('failed', [sr, su])]) == [[sr, su]]; n += 1
+    assert group_error_lists([('failed', [su]), ('backtracked', [sr])]) == [[su, sr]]; n += 1
+    assert group_error_lists([('backtracked', None), ('failed', [sr]), ('skipped', [su])]) == [[sr, su], [sr]]; n += 1
+    assert expected_group([('failed', [su]), ('backtracked', [sr])], reg) == {('final', 'MichelsonScriptRejected')}; n += 1
+    assert expected_group([('backtracked', [sr]), ('failed', [su]), ('skipped', None)], reg) == \
+        {('category', 'TezArithmeticError')}; n += 1
+    assert expected_group([('failed', [sr]), ('skipped', [su])], reg) == \
+        {('category', 'TezArithmeticError'), ('final', 'MichelsonScriptRejected')}; n += 1
+    assert expected_group([('failed', None), ('skipped', None)], reg) == {(GENERIC, None)}; n += 1
     assert order_sensitive('proto.alpha.michelson_v1.script_rejected', reg); n += 1
     assert not order_sensitive('proto.alpha.michelson_v1.runtime_error', reg); n += 1
     return n
